@@ -54,6 +54,8 @@ def main():
             sn = spec["node"][n["id"] - 1] if isinstance(spec["node"], list) else spec["node"].get(str(n["id"]))
             print(" node", n["id"], "REAL:", json.dumps({a: n[a] for a in ("state","term","vote","leader","commit","last","synced","aborted","votesNeeded")}), " log", [(e["i"],e["t"],e["y"]) for e in n["log"]])
             print("        SPEC:", json.dumps({a: sn.get(a) for a in ("state","term","vote","leader","commit","synced","aborted","votesNeeded","selfVote","logPrev")}), " log", [(e["t"],e["y"]) for e in sn["log"]])
+            print("        REAL snap", json.dumps(n["snap"])[:300], "fsm", json.dumps(n["fsm"]), "snapG", n["snapG"], "bnds", n["bnds"])
+            print("        SPEC snap", json.dumps({a: sn.get(a) for a in ("snapIdx", "snapTerm", "snapCmds", "fsmIdx", "fsmCmds", "bnds")})[:300], "snapCfg", json.dumps(sn.get("snapCfg"))[:200], "snapG", json.dumps(sn.get("snapG"))[:200], "fsmQ", json.dumps(sn.get("fsmQ"))[:300])
             print("        REAL cfgL", json.dumps(n["cfgL"]), "cfgC", n["cfgC"]["index"], " ldr", json.dumps(n["ldr"])[:900])
             print("        SPEC cfgL", json.dumps(sn["cfgL"]), "cfgC", sn["cfgC"]["index"], " ldr", json.dumps(sn["ldr"])[:900])
     shutil.rmtree(w, ignore_errors=True)
